@@ -125,6 +125,7 @@ Section ExprInd.
   Hypothesis Hthe : forall k i, P (EThe k i).
   Hypothesis Hthen : forall n, P (ETheN n).
   Hypothesis Hacc : forall n x, P x -> P (EAcc n x).
+  Hypothesis Hkey : forall n, P (EKey n).
   Hypothesis Hnil : Q [].
   Hypothesis Hcons : forall x l, P x -> Q l -> Q (x :: l).
   Fixpoint expr_ind2 (e : expr) : P e :=
@@ -141,6 +142,7 @@ Section ExprInd.
     | EThe k i => Hthe k i
     | ETheN n => Hthen n
     | EAcc n x => Hacc n x (expr_ind2 x)
+    | EKey n => Hkey n
     end.
 End ExprInd.
 
@@ -777,6 +779,25 @@ Proof.
   destruct Hs as [r2 Hs]. exists r2. cbn [Nat.add]. erewrite run_ops_step; [| subst a1; lia | exact Hs]. f_equal. subst a1. lia.
 Qed.
 
+(* a key / mouse / date property: an empty argument list, then the opcode *)
+Lemma exec_key en n : wf_e en (EKey n) -> exec_spec en (EKey n).
+Proof.
+  intros [Hn H256] d off len a fuel r m Hag Hc Hoff Hlen.
+  cbn [compile_e ninstr] in *. rewrite !zlen_app in *. 
+  apply code_at_app in Hc. destruct Hc as [Hca Hct].
+  change (zlen (compile_arglist 0 true)) with 2 in *. rewrite !zlen_cons, zlen_nil in *.
+  destruct (exec_arglist d off len a (S fuel) r m [] (m_stack m) 0 Hca eq_refl ltac:(lia) eq_refl ltac:(lia) ltac:(cbn; lia)) as [r1 E1].
+  change (2 + fuel)%nat with (S (S fuel)). rewrite E1. change (arglist_len 0) with 2 in *.
+  set (m1 := with_stack m (LoadList "<load_list>" a (rev []) :: m_stack m)).
+  destruct Hag as (Hnm & _).
+  assert (Hs : exists r', step d (a + 2) r1 m1 = Ok (a + 2 + 2, r', after_e en a (EKey n) m)).
+  { eapply step_2 with (proc := "KeyPropertyAccesorOpcode") (attr := "") (oc := OKeyPropertyAccessor); [exact Hct | reflexivity | reflexivity |].
+    intros p2. cbn [process]. rewrite u8_b by lia. subst m1. cbn [m_ctx with_stack]. rewrite Hnm, nth_name_ok by exact Hn. cbn [bind].
+    unfold pop. cbn [m_stack with_stack bind rev]. fold (nm en n).
+    rewrite after_e_leaf by reflexivity. cbn [reify_e]. destruct m as [st [? ? ? ? ? ? ?] cx]; reflexivity. }
+  destruct Hs as [r2 Hs]. exists r2. erewrite run_ops_step; [| lia | exact Hs]. f_equal. lia.
+Qed.
+
 (* the core of C02: any expression tree, any depth, any width *)
 Theorem exec_e en e : wf_e en e -> exec_spec en e.
 Proof.
@@ -794,6 +815,7 @@ Proof.
   - intros k i Hwf. apply exec_the. exact Hwf.
   - intros n Hwf. apply exec_then. exact Hwf.
   - intros n x IHx Hwf. apply exec_acc; [apply IHx; apply Hwf | exact Hwf].
+  - intros n Hwf. apply exec_key. exact Hwf.
   - intros _. apply exec_args_nil.
   - intros x l IHx IHl [Hx Hl]. apply exec_args_cons; auto.
 Qed.
